@@ -758,8 +758,8 @@ Section Explain.
   Lemma Lx_subtable : forall s, sub_wf F s = true ->
     Lx (explain_subtable U F s) (sub_toks U F s) (sub_dl s) /\ rest_ok (explain_subtable U F s).
   Proof.
-    intros s W. destruct s as [h|c|cov delta|cov subst|cov repl|cov alts|cov repl|cov adj|cov adj];
-      [apply Lx_chain; exact W|apply Lx_ctx; exact W|..];
+    intros s W. destruct s as [p|h|c|cov delta|cov subst|cov repl|cov alts|cov repl|cov adj|cov adj];
+      [split; [apply Lx_nil|exact I]|apply Lx_chain; exact W|apply Lx_ctx; exact W|..];
       cbn [sub_wf] in W; split_wf W; unfold explain_subtable, sub_toks; cbv beta iota zeta;
       try (assert (Ha : ascending cov) by (apply ascendingb_spec; assumption));
       try (assert (Hc : Forall (fun g => g < num_glyphs F) cov) by (apply gids_ok_forall; assumption)).
@@ -823,6 +823,174 @@ Section Explain.
         apply Forall_forall. intros; exact I.
   Qed.
 
+  (* ---- GPOS3 ---- *)
+  Lemma Lx_digits_z : forall z, Lx (digits_z z) (fun l => [tk TInt (digits_z z) l]) 0.
+  Proof.
+    intros z. destruct z as [|p|p]; unfold digits_z; try apply Lx_digits.
+    intros line rest Hrest. destruct (digits_head (Npos p)) as (c & r & E & Hc & Hr). rewrite E.
+    assert (E62 : (c =? 62) = false) by (pose proof Hc as Hc'; apply is_adigit_spec in Hc'; lia).
+    cbn [app lexm]. change (lstep U LStart line 45) with (@nil token, LHyphen, line). cbn [app lexm lstep].
+    rewrite E62, Hc. cbn [app]. rewrite lexm_int_run by auto. rewrite N.add_0_r.
+    rewrite (lexm_flush U (LInt ([45; c] ++ r)) line _ rest eq_refl Hrest). reflexivity.
+  Qed.
+
+  Lemma rest_ok_digits_z : forall z r, rest_ok (digits_z z ++ r) -> True.
+  Proof. auto. Qed.
+
+  Lemma LxH_colon_sp : LxH [58; 32] (fun l => [t_colon l]) 0.   Proof. lit. Qed.
+  Lemma LxH_to : LxH (32 :: k_to ++ [32]) (fun l => [tk TIdent k_to l]) 0.   Proof. lit. Qed.
+  Lemma LxH_semi : LxH [59] (fun l => [t_semi l]) 0.   Proof. lit. Qed.
+  Lemma hs_semi : hardsep U 59 = true. Proof. reflexivity. Qed.
+
+  Definition anchor_text (a : anchor) : list N := digits_z (fst a) ++ [44] ++ digits_z (snd a).
+  Lemma Lx_anchor : forall a, Lx (anchor_text a)
+    (fun l => [tk TInt (digits_z (fst a)) l; t_comma l; tk TInt (digits_z (snd a)) l]) 0.
+  Proof.
+    intros a. unfold anchor_text. eapply Lx_ext.
+    - apply Lx_app; [apply Lx_digits_z| |reflexivity]. apply LxH_app_Lx; [apply LxH_comma1|apply Lx_digits_z].
+    - intros l. cbn. rewrite !N.add_0_r. reflexivity.
+    - reflexivity.
+  Qed.
+
+  Lemma Lx_gpos3 : forall recs first j0, Forall (fun e => fst e < num_glyphs F) recs ->
+    Lx (explain_gpos3 U F recs first j0) (gpos3_toks U F recs first j0) (gpos3_dl recs first j0)
+    /\ (first || negb j0 = true -> rest_ok (explain_gpos3 U F recs first j0)).
+  Proof.
+    induction recs as [|[g [[x1 y1] [x2 y2]]] recs IH]; intros first j0 Hr.
+    - split; [apply Lx_nil|intros; exact I].
+    - inversion Hr as [|? ? Hg Hrs]; subst. cbn [fst] in Hg.
+      destruct (IH first false Hrs) as [IH1 IH2]. specialize (IH2 ltac:(apply orb_true_r)).
+      cbn [explain_gpos3 gpos3_toks gpos3_dl]. split.
+      + replace (write_glyph U F g ++ [58; 32] ++ digits_z x1 ++ [44] ++ digits_z y1 ++ 32 :: k_to ++ [32] ++ digits_z x2 ++ [44] ++ digits_z y2 ++ explain_gpos3 U F recs first false)
+          with (write_glyph U F g ++ ([58; 32] ++ (anchor_text (x1, y1) ++ ((32 :: k_to ++ [32]) ++ (anchor_text (x2, y2) ++ explain_gpos3 U F recs first false)))))
+          by (unfold anchor_text; cbn [fst snd]; rewrite <- !app_assoc; reflexivity).
+        eapply Lx_ext.
+        * apply (LxH_app_Lx U (if j0 then [] else [59]) (fun l => if j0 then [] else [t_semi l]) 0);
+            [destruct j0; [apply LxH_nil|apply LxH_semi]|].
+          apply (LxH_app_Lx U (if first || negb j0 then [10; 9] else []) (fun l => if first || negb j0 then [tk TEOL [10] l] else [])
+                   (if first || negb j0 then 1 else 0));
+            [destruct (first || negb j0); [apply LxH_nl_tab|apply LxH_nil]|].
+          apply Lx_app; [apply Lx_glyph; exact Hg| |reflexivity].
+          apply LxH_app_Lx; [apply LxH_colon_sp|].
+          apply Lx_app; [apply Lx_anchor| |reflexivity].
+          apply LxH_app_Lx; [apply LxH_to|].
+          apply Lx_app; [apply Lx_anchor|exact IH1|exact IH2].
+        * intros l. cbn [app fst snd]. rewrite ?N.add_0_r.
+          destruct j0, first; cbn [orb negb app]; rewrite ?N.add_0_r; reflexivity.
+        * destruct (first || negb j0); lia.
+      + intros Hc. rewrite Hc. destruct j0; reflexivity.
+  Qed.
+
+  (* ---- GPOS4 ---- *)
+  Lemma LxH_mark_sp : LxH (k_mark ++ [32]) (fun l => [tk TIdent k_mark l]) 0.   Proof. lit. Qed.
+  Lemma LxH_base_sp : LxH (k_base ++ [32]) (fun l => [tk TIdent k_base l]) 0.   Proof. lit. Qed.
+  Lemma LxH_sp_at : LxH [32; 64] (fun l => [t_at l]) 0.   Proof. lit. Qed.
+
+  Lemma LxH_mark : forall e, fst e < num_glyphs F -> LxH (explain_mark U F e) (mark_toks U F e) 0.
+  Proof.
+    intros [g [cls [x y]]] Hg. cbn [fst] in Hg. unfold explain_mark, mark_toks. cbn [fst snd].
+    replace (k_mark ++ [32] ++ write_glyph U F g ++ [58; 32] ++ digits cls ++ [64] ++ digits_z x ++ [44] ++ digits_z y ++ [59])
+      with ((k_mark ++ [32]) ++ ((write_glyph U F g ++ ([58; 32] ++ (digits cls ++ ([64] ++ anchor_text (x, y))))) ++ [59]))
+      by (unfold anchor_text; cbn [fst snd]; rewrite <- !app_assoc; reflexivity).
+    eapply LxH_ext.
+    - apply LxH_app; [apply LxH_mark_sp|].
+      apply Lx_app_LxH; [|apply LxH_semi|reflexivity|discriminate].
+      apply Lx_app; [apply Lx_glyph; exact Hg| |reflexivity].
+      apply LxH_app_Lx; [apply LxH_colon_sp|].
+      apply Lx_app; [apply Lx_digits| |reflexivity].
+      apply LxH_app_Lx; [apply LxH_at|apply Lx_anchor].
+    - intros l. cbn [app fst snd]. rewrite ?N.add_0_r. reflexivity.
+    - reflexivity.
+  Qed.
+
+  Lemma Lx_anchors : forall an,
+    Lx (concat (map explain_anchor an)) (fun l => concat (map (fun a => anchor_toks a l) an)) 0
+    /\ rest_ok (concat (map explain_anchor an)).
+  Proof.
+    induction an as [|a an [IH1 IH2]]; [split; [apply Lx_nil|exact I]|].
+    cbn [map concat]. split; [|reflexivity].
+    change (explain_anchor a) with ([32; 64] ++ anchor_text a).
+    eapply Lx_ext.
+    - apply Lx_app; [|exact IH1|exact IH2]. apply LxH_app_Lx; [apply LxH_sp_at|apply Lx_anchor].
+    - intros l. cbn [app]. rewrite ?N.add_0_r. reflexivity.
+    - reflexivity.
+  Qed.
+
+  Lemma LxH_base : forall e, fst e < num_glyphs F -> LxH (explain_base U F e) (base_toks U F e) 0.
+  Proof.
+    intros [g an] Hg. cbn [fst] in Hg. unfold explain_base, base_toks. cbn [fst snd].
+    destruct (Lx_anchors an) as [A1 A2].
+    replace (k_base ++ [32] ++ write_glyph U F g ++ [58] ++ concat (map explain_anchor an) ++ [59])
+      with ((k_base ++ [32]) ++ ((write_glyph U F g ++ ([58] ++ concat (map explain_anchor an))) ++ [59]))
+      by (rewrite <- !app_assoc; reflexivity).
+    eapply LxH_ext.
+    - apply LxH_app; [apply LxH_base_sp|].
+      apply Lx_app_LxH; [|apply LxH_semi|reflexivity|discriminate].
+      apply Lx_app; [apply Lx_glyph; exact Hg| |reflexivity].
+      apply LxH_app_Lx; [apply LxH_colon|exact A1].
+    - intros l. cbn [app]. rewrite ?N.add_0_r. reflexivity.
+    - reflexivity.
+  Qed.
+
+  Lemma LxH_lines : forall items titems first,
+    Forall2 (fun it tt => LxH it tt 0) items titems ->
+    LxH (explain_lines items first) (lines_toks titems first) (lines_dl (length items) first).
+  Proof.
+    intros items titems first H. revert first. induction H as [|it tt items titems Hi Hr IH]; intros first.
+    - apply LxH_nil.
+    - cbn [explain_lines lines_toks lines_dl length]. eapply LxH_ext.
+      + apply (LxH_app U (if first then [10; 9] else []) (fun l => if first then [tk TEOL [10] l] else []) (if first then 1 else 0));
+          [destruct first; [apply LxH_nl_tab|apply LxH_nil]|].
+        apply LxH_app; [exact Hi|apply (IH true)].
+      + intros l. destruct first; cbn [app]; rewrite ?N.add_0_r; reflexivity.
+      + destruct first; lia.
+  Qed.
+
+  Lemma Forall2_map_same : forall {A B C} (R : B -> C -> Prop) (f : A -> B) (g : A -> C) (P : A -> Prop) xs,
+    (forall x, P x -> R (f x) (g x)) -> Forall P xs -> Forall2 R (map f xs) (map g xs).
+  Proof. intros A B C R f g P xs H HP. induction HP; cbn; constructor; auto. Qed.
+
+  Lemma Forall_combine_fst : forall {B} (P : N -> Prop) (xs : list N) (ys : list B),
+    Forall P xs -> Forall (fun e => P (fst e)) (combine xs ys).
+  Proof.
+    intros B P xs ys H. apply Forall_forall. intros [x y] Hin. apply in_combine_l in Hin.
+    rewrite Forall_forall in H. cbn. auto.
+  Qed.
+
+  Lemma Lx_pos : forall p first, pos_wf F p = true ->
+    Lx (explain_pos U F p first) (pos_toks U F p first) (pos_dl p first)
+    /\ (first = true -> rest_ok (explain_pos U F p first)).
+  Proof.
+    intros p first W. destruct p as [cov records|mc ma bc ba]; cbn [pos_wf] in W; split_wf W;
+      unfold explain_pos, pos_toks, pos_dl.
+    - assert (Hc : Forall (fun g => g < num_glyphs F) cov) by (apply gids_ok_forall; assumption).
+      destruct (Lx_gpos3 (combine cov records) first true) as [A B].
+      + apply Forall_forall. intros [g r] Hin. cbn [fst]. apply in_combine_l in Hin.
+        rewrite Forall_forall in Hc. auto.
+      + split; auto. intros E. apply B. rewrite E. reflexivity.
+    - assert (Hm : Forall (fun g => g < num_glyphs F) mc) by (apply gids_ok_forall; assumption).
+      assert (Hb : Forall (fun g => g < num_glyphs F) bc) by (apply gids_ok_forall; assumption).
+      split.
+      + apply LxH_Lx. eapply LxH_ext.
+        * apply (LxH_lines _ (gpos4_items U F mc ma bc ba)). unfold gpos4_items. apply Forall2_app.
+          -- apply (Forall2_map_same _ _ _ (fun e => fst e < num_glyphs F)); [apply LxH_mark|].
+             apply (Forall_combine_fst (fun g => g < num_glyphs F)); auto.
+          -- apply (Forall2_map_same _ _ _ (fun e => fst e < num_glyphs F)); [apply LxH_base|].
+             apply (Forall_combine_fst (fun g => g < num_glyphs F)); auto.
+        * reflexivity.
+        * rewrite app_length, !map_length. reflexivity.
+      + intros E. subst first. destruct (map _ _ ++ map _ _); reflexivity.
+  Qed.
+
+  Lemma Lx_subtablep : forall s first, sub_wf F s = true ->
+    Lx (explain_subtablep U F s first) (sub_toksp U F s first) (sub_dlp s first)
+    /\ (first = true -> rest_ok (explain_subtablep U F s first)).
+  Proof.
+    intros s first W. destruct s as [p| | | | | | | | |];
+      try (destruct (Lx_subtable _ W) as [A B]; split; [exact A|intros; exact B]).
+    apply Lx_pos. exact W.
+  Qed.
+
   (* ---- lookups ---- *)
   Lemma wf_kw : forall kw n, (kw = k_GSUB \/ kw = k_GPOS) -> wf_name U (kw ++ digits n) = true.
   Proof.
@@ -852,7 +1020,7 @@ Section Explain.
       induction subs as [|s r IH]; intros H.
       - split; [apply Lx_nil|exact I].
       - inversion H as [|? ? Hs Hr]; subst. destruct (IH Hr) as [IH1 IH2].
-        destruct (Lx_subtable s Hs) as [S1 S2]. cbn [explain_subs subs_toks]. split; [|reflexivity].
+        destruct (Lx_subtablep s false Hs) as [S1 S2]. cbn [explain_subs subs_toks]. split; [|reflexivity].
         eapply Lx_ext.
         + apply LxH_app_Lx; [apply LxH_or|]. apply Lx_app; [exact S1|exact IH1|exact IH2].
         + intros l. cbn [app]. rewrite ?N.add_0_r. reflexivity.
@@ -865,7 +1033,7 @@ Section Explain.
       intros subs H. destruct subs as [|s r].
       - apply Lx_nil.
       - inversion H as [|? ? Hs Hr]; subst. destruct (Lx_subs_rest r Hr) as [R1 R2].
-        destruct (Lx_subtable s Hs) as [S1 S2]. cbn [explain_subs subs_toks].
+        destruct (Lx_subtablep s true Hs) as [S1 S2]. specialize (S2 eq_refl). cbn [explain_subs subs_toks].
         eapply Lx_ext.
         + apply Lx_app; [exact Hhdr| |apply rest_ok_app; [exact S2|exact R2]].
           apply Lx_app; [exact S1|exact R1|exact R2].
@@ -1016,5 +1184,57 @@ Section Explain.
   Proof.
     intros ll H. unfold M_lex. rewrite <- (app_nil_r (M_explain_gpos U F ll)).
     rewrite (Lx_gpos ll H 1 [] I). reflexivity.
+  Qed.
+
+  Lemma Lx_gpos_gen : forall (P : lookup -> Prop),
+    (forall lk, P lk -> flags_ok (l_flags lk) = true /\ Forall (fun s => sub_wf F s = true) (l_subs lk)) ->
+    forall ll, Forall P ll -> Lx (M_explain_gpos U F ll) (gpos_toks U F ll) (gpos_dl ll).
+  Proof.
+    intros P HP. induction ll as [|lk r IH]; intros H.
+    - apply Lx_nil.
+    - inversion H as [|? ? Hlk Hr]; subst. destruct (HP lk Hlk) as [Hf Hs].
+      unfold M_explain_gpos in *. destruct r as [|lk' r'].
+      + cbn [map join_nl gpos_toks gpos_dl]. apply Lx_lookup; auto.
+      + change (join_nl (map (explain_lookup U F k_GPOS) (lk :: lk' :: r')))
+          with (explain_lookup U F k_GPOS lk ++ ([10] ++ join_nl (map (explain_lookup U F k_GPOS) (lk' :: r')))).
+        eapply Lx_ext.
+        * apply Lx_app; [apply Lx_lookup; auto| |reflexivity].
+          apply LxH_app_Lx; [apply LxH_nl|apply IH; exact Hr].
+        * intros l. cbn [gpos_toks]. cbn [app]. rewrite ?N.add_assoc. reflexivity.
+        * cbn [gpos_dl]. lia.
+  Qed.
+
+  Lemma gpos3_lookup_subs : forall lk, gpos3_lookup_wf F lk = true ->
+    flags_ok (l_flags lk) = true /\ Forall (fun s => sub_wf F s = true) (l_subs lk).
+  Proof.
+    intros lk H. unfold gpos3_lookup_wf in H. split_wf H. split; auto.
+    match goal with Hx : forallb _ (l_subs lk) = true |- _ => apply forallb_Forall in Hx;
+      eapply Forall_impl; [|exact Hx] end.
+    cbn. intros s Hs. destruct s as [p| | | | | | | | |]; try discriminate. destruct p; try discriminate; exact Hs.
+  Qed.
+
+  Lemma gpos4_lookup_subs : forall lk, gpos4_lookup_wf F lk = true ->
+    flags_ok (l_flags lk) = true /\ Forall (fun s => sub_wf F s = true) (l_subs lk).
+  Proof.
+    intros lk H. unfold gpos4_lookup_wf in H. split_wf H. split; auto.
+    match goal with Hx : forallb _ (l_subs lk) = true |- _ => apply forallb_Forall in Hx;
+      eapply Forall_impl; [|exact Hx] end.
+    cbn. intros s Hs. destruct s as [p| | | | | | | | |]; try discriminate. destruct p; try discriminate; exact Hs.
+  Qed.
+
+  Lemma gpos_all_lookup_subs : forall lk, gpos_lookup_wf_all F lk = true ->
+    flags_ok (l_flags lk) = true /\ Forall (fun s => sub_wf F s = true) (l_subs lk).
+  Proof.
+    intros lk H. unfold gpos_lookup_wf_all in H. repeat (apply orb_true_iff in H; destruct H as [H|H]).
+    - apply gpos_lookup_subs; auto.
+    - apply gpos3_lookup_subs; auto.
+    - apply gpos4_lookup_subs; auto.
+  Qed.
+
+  Lemma lex_explain_gpos_all : forall ll, Forall (fun lk => gpos_lookup_wf_all F lk = true) ll ->
+    M_lex U (M_explain_gpos U F ll) = gpos_toks U F ll 1 ++ [tk TEOF [] (1 + gpos_dl ll)].
+  Proof.
+    intros ll H. unfold M_lex. rewrite <- (app_nil_r (M_explain_gpos U F ll)).
+    rewrite (Lx_gpos_gen _ gpos_all_lookup_subs ll H 1 [] I). reflexivity.
   Qed.
 End Explain.
